@@ -263,12 +263,29 @@ func (d *Decoder) LoadParityData() error {
 }
 
 func (d *Decoder) buildShards() [][]byte {
+	shardByteCount := d.shardByteCount
+	if shardByteCount == 0 {
+		// No parity volume was found, so fall back to the
+		// size of the largest data file.
+		for _, data := range d.fileData {
+			if len(data) > shardByteCount {
+				shardByteCount = len(data)
+			}
+		}
+	}
+
 	shards := make([][]byte, len(d.fileData)+len(d.parityData))
 	for i, data := range d.fileData {
 		if data == nil {
 			continue
 		}
-		padding := make([]byte, d.shardByteCount-len(data))
+		if len(data) > shardByteCount {
+			// Inconsistent with the parity volumes; leave
+			// the mismatched size for the coder to reject.
+			shards[i] = data
+			continue
+		}
+		padding := make([]byte, shardByteCount-len(data))
 		shards[i] = append(data, padding...)
 	}
 
